@@ -35,7 +35,7 @@ RULE = ('Two generated families. Scenarios: a seeded program over the public API
 ASSUMPTIONS = ['"fresh process" is realised by forking from a zygote that only imported the library; a real interpreter start with another PYTHONHASHSEED is sampled',
                'every randomness source is given a seed and start times are explicit', 'scenarios are drawn from a finite grammar']
 REQUIRED_CLASSES = ['scenario', 'copy', 'record_default_dict', 'record_reused_dict', 'prefix_has_recording', 'from_data',
-                    'array_record', 'copy_of_loaded_h5', 'copy_of_loaded_fil', 'copy_of_slice', 'pickle', 'seeds', 'rerecord_same_backend']
+                    'array_record', 'copy_of_loaded_h5', 'copy_of_loaded_fil', 'copy_of_slice', 'copy_of_moved_ts', 'copy_of_consolidated', 'pickle', 'seeds', 'rerecord_same_backend']
 
 # --------------------------------------------------------------------------------------------------
 # scenario interpreter (runs inside whichever process is asked to)
@@ -304,7 +304,7 @@ def strategy_(draw, tier):
         return dict(family='scenario', S=draw(st.lists(step_strategy(), min_size=1, max_size=4)),
                     P=draw(st.lists(step_strategy(), min_size=1, max_size=3)))
     g = draw(gen.geometry(max_fchans=24, max_tchans=8, min_fchans=3, min_tchans=3))
-    return dict(family='copy', g=g, origin=draw(st.sampled_from(['synthetic', 'fil', 'h5', 'slice', 'waterfall', 'noise'])),
+    return dict(family='copy', g=g, origin=draw(st.sampled_from(['synthetic', 'fil', 'h5', 'slice', 'waterfall', 'noise', 'moved_ts', 'consolidated'])),
                 how=draw(st.sampled_from(['copy', 'copy', 'pickle'])), seed=draw(seed), seed_b=draw(seed))
 
 
@@ -453,6 +453,11 @@ def run_copy_case(case, ctx):
             fr.add_noise(x_mean=10.0, x_std=2.0, noise_type='gaussian')
         if origin == 'slice':
             fr = stg.get_slice(fr, 1, N - 1)
+        if origin == 'moved_ts':
+            fr.ts = np.asarray(fr.ts) + 12.5 * fr.dt          # the user set the time axis
+        if origin == 'consolidated':
+            other = gen.make_frame(stg, dict(g, t_start=g['t_start'] + 1000.0), data=content.astype(np.float64) + 3, seed=case['seed'] + 1)
+            fr = stg.Cadence([fr, other]).consolidate()      # absolute, gapped time axis
         if origin == 'waterfall':
             fr.get_waterfall()
         return fr
